@@ -17,6 +17,8 @@
 (*   FixExhaust  = FALSE : exhaustion records a line start at               *)
 (*                         last_position + offset instead of input.len()    *)
 (*   FixAdvance  = FALSE : advance_to takes relative positions (D5)         *)
+(*   FixPeekSkip = FALSE : peek_n stops at the first unmatched character    *)
+(*                         (D6) - refutes PeekRefines (C11)                 *)
 (* bin/check runs the model with all TRUE (must hold) and with each FALSE   *)
 (* (TLC must find the counter-example: the refinement check is not vacuous).*)
 (***************************************************************************)
@@ -24,7 +26,8 @@ EXTENDS ScannerApi
 
 CONSTANTS FixLastChar, FixExhaust,
           FixAdvance,     \* FALSE: advance_to takes positions relative to the last reset (before repair D5)
-          WithAdvance     \* TRUE: also explore peek_n / advance_to and set_offset to any boundary (C10)
+          WithAdvance,    \* TRUE: also explore peek_n / advance_to / set_mode and set_offset to any boundary (C10, C11)
+          FixPeekSkip     \* FALSE: peek_n gives up at the first character no pattern matches (before repair D6)
 
 VARIABLES impl     \* [off, nxt, lastpos, lastnl, lines] - see NewImpl
 ivars == <<scanners, iters, cache, impl>>
@@ -70,6 +73,28 @@ NextLoop(st, k, md) ==
   ELSE { [tok |-> NoTok,
           st |-> Record(st, IF FixExhaust THEN ByteLen(k) ELSE st.lastpos + st.off, FALSE)] }
 
+\* peek_n(n): the loop of find_matches_impl.rs::peek_n on a COPY of the cursor (ci); neither the
+\* bookkeeping nor the mode is touched.  toks: the matches collected so far
+RECURSIVE PeekLoop(_, _, _, _, _)
+PeekLoop(ci, k, md, n, toks) ==
+  IF Len(toks) >= n THEN { [toks |-> toks, sw |-> -1] }
+  ELSE LET m == ModeOf(iters[1].cfg, md)
+           B == IF ci <= LenW(k) THEN Best(m, W(k), ci) ELSE {} IN
+       IF B # {}
+         THEN UNION { LET t == TokOf(iters[1].cfg, md, k, ci, c) IN
+                      IF HasTrans(m, t[1])                                  \* has_transition: stop after this match
+                        THEN { [toks |-> Append(toks, t), sw |-> TransTarget(m, t[1])] }
+                        ELSE PeekLoop(c[2], k, md, n, Append(toks, t))      \* advance_char_indices_beyond_match
+                      : c \in B }
+       ELSE IF ci > LenW(k) THEN { [toks |-> toks, sw |-> -1] }             \* char_indices.next() is None
+       ELSE IF FixPeekSkip THEN PeekLoop(ci + 1, k, md, n, toks)            \* skip the unmatched character
+       ELSE { [toks |-> toks, sw |-> -1] }
+\* the PeekResult variant chosen at the end of peek_n
+ImplPeek(st, k, md, n) ==
+  { [kind   |-> IF r.sw # -1 THEN "S" ELSE IF Len(r.toks) = n THEN "M" ELSE IF r.toks = <<>> THEN "N" ELSE "E",
+     toks   |-> r.toks,
+     target |-> r.sw] : r \in PeekLoop(st.nxt, k, md, n, <<>>) }
+
 \* set_offset(o)
 ImplSetOffset(st, k, o) ==
   LET i == IdxOf(k, Clamp(k, o)) IN
@@ -98,15 +123,20 @@ StepSetOffsetI == \E o \in { Off(K, i) : i \in 1..iters[1].hw } :       \* to of
                     /\ DoSetOffset(1, o)
                     /\ impl' = ImplSetOffset(impl, K, o)
 \* C10: peek_n does not touch the bookkeeping; advance_to(end of a peeked match) moves the cursor
-StepPeekI == \E n \in {1, 2} : \E res \in PeekResults(iters[1], n) : DoPeek(1, n, res) /\ UNCHANGED impl
+StepPeekI == \E n \in 0..3 : \E res \in ImplPeek(impl, K, iters[1].mode, n) : DoPeek(1, n, res) /\ UNCHANGED impl
+StepSetModeI == \E m \in 0..(NModes(iters[1].cfg) - 1) : DoSetMode(1, m) /\ UNCHANGED impl
 StepAdvanceI == \E p \in iters[1].peeked : DoAdvanceTo(1, p) /\ impl' = ImplAdvance(impl, K, p)
 StepSetOffsetAnyI == \E o \in { Off(K, i) : i \in 1..(LenW(K) + 1) } \cup { ByteLen(K) + 2 } :
                        /\ DoSetOffset(1, o)
                        /\ impl' = ImplSetOffset(impl, K, o)
-INext == StepNextI \/ StepSetOffsetI \/ (WithAdvance /\ (StepPeekI \/ StepAdvanceI \/ StepSetOffsetAnyI))
+INext == StepNextI \/ StepSetOffsetI \/ (WithAdvance /\ (StepPeekI \/ StepAdvanceI \/ StepSetOffsetAnyI \/ StepSetModeI))
 
 CursorRefines == impl.nxt = iters[1].cur
 PosRefines == iters[1].posok =>
                 \A i \in 1..iters[1].hw : ImplPos(impl, Off(K, i)) \in PosAdm(K, Off(K, i))
-IInv == CursorRefines /\ PosRefines
+\* what the bookkeeping delivers is what the user-level machine admits (a step the user-level
+\* machine does not admit would otherwise just be disabled, i.e. silently not explored)
+NextRefines == \A r \in NextLoop(impl, K, iters[1].mode) : r.tok \in { o.tok : o \in NextOutcomes(iters[1]) }
+PeekRefines == WithAdvance => \A n \in 0..3 : ImplPeek(impl, K, iters[1].mode, n) \subseteq PeekResults(iters[1], n)
+IInv == CursorRefines /\ PosRefines /\ NextRefines /\ PeekRefines
 =============================================================================
